@@ -600,6 +600,75 @@ def run(prog, rep, tier):
         rep.ob('R06.8', ok, 'R06.8|%s|tag-mask' % body.nkey, 'tag masked with keystream block 0; lengths block big-endian' if ok else 'tag finalisation differs (mask block / length encoding)', body.loc())
 
     r06_9(prog, rep)
+    r06_10(prog, rep)
+
+
+def r06_10(prog, rep):
+    """chunk / block geometry: "one AES-256-GCM message per 128 KiB chunk", "4 MiB brotli blocks". Writer: the unit is closed exactly when its fill
+    counter equals the published size (the equality test against the named constant guards the close), and what is accepted per call is bounded by
+    `SIZE - counter`. Reader: the chunk loaders read take(CHUNK_SIZE + TAG_LENGTH) / take(CHUNK_SIZE)."""
+    mla = prog.crates['mla']
+    CH = mla.const_int('layers::encrypt::CHUNK_SIZE')
+    BL = mla.const_int('layers::compress::UNCOMPRESSED_DATA_SIZE')
+    TAG = mla.const_int('crypto::aesgcm::TAG_LENGTH') or 16
+
+    def geometry(body, counter_pred, cname, close_pred, what):
+        key = 'R06.10|%s|' % body.nkey
+        eq = None
+        for bl in body.blocks:
+            si = switch_info(prog, body, bl.idx)
+            if not si or si['kind'] != 'bool':
+                continue
+            e = expr_of(body, si['cond'])
+            if e[0] == 'binop' and e[1] in ('Eq', 'Ne', 'Ge', 'Lt'):
+                sides = [e[2], e[3]]
+                cs = [x for x in sides if x[0] == 'const' and ((x[2] or {}).get('def') or '').endswith(cname)]
+                vs = [x for x in sides if x[0] == 'place' and counter_pred(body, x[1])]
+                if cs and vs and not (e[1] in ('Ge', 'Lt') and sides.index(vs[0]) != 0):
+                    eq = (bl.idx, si['true'] if e[1] in ('Eq', 'Ge') else si['false'])
+        closes = [b for b in body.calls() if close_pred(b.term)]
+        okc = eq is not None and bool(closes) and all(body.edge_dominates(eq, c.idx) for c in closes)
+        rep.ob('R06.10', okc, key + 'unit-closed-when-full', '%s closed exactly when its counter reaches %s' % (what, cname) if okc else
+               'the %s is not closed under the test `counter == %s`: its size is no longer the published one' % (what, cname), body.loc(eq[0]) if eq else body.loc())
+        subs = []
+        for bl in body.blocks:
+            for st in bl.stmts:
+                if st.kind == 'assign' and st.rv.r == 'binop' and st.rv.j['op'].startswith('Sub'):
+                    a, b2 = st.rv.ops
+                    if a.kind == 'const' and (a.const_def() or '').endswith(cname) and b2.place is not None and counter_pred(body, expr_of(body, b2)[1] if expr_of(body, b2)[0] == 'place' else b2.place):
+                        subs.append(st)
+        rep.ob('R06.10', bool(subs), key + 'accepted-bounded-by-remainder', 'bytes accepted per call bounded by %s - counter' % cname if subs else
+               'no `%s - counter` bound on what is added to the current %s' % (cname, what), body.loc())
+
+    ew = one_body(prog, rep, 'R06.10', 'mla', adt='layers::encrypt::EncryptionLayerWriter', name='write', trait='std::io::Write')
+    if ew is not None:
+        geometry(ew, lambda b, pl: place_fields(pl)[-1:] == ['current_chunk_offset'], 'CHUNK_SIZE', lambda t: t.cmethod == 'renew_cipher', 'encryption chunk')
+    cw = one_body(prog, rep, 'R06.10', 'mla', adt='layers::compress::CompressionLayerWriter', name='write', trait='std::io::Write')
+    if cw is not None:
+        cw = inlined_body(prog, cw)
+
+        def written(b, pl):
+            # payload `.0` of the InData state (the per-block byte counter), or a local copied from it
+            if any(p[0] == 'down' and p[2] == 'InData' for p in pl[1]):
+                return True
+            o = origins(b, [pl[0]], through_calls=False)
+            return any('InData' in str(f) or (f and f[-1] == '0') for f in o.fields) or b.lname(pl[0]) == 'written'
+        geometry(cw, written, 'UNCOMPRESSED_DATA_SIZE', lambda t: t.cmethod == 'into_inner' and 'CompressorWriter' in (t.cargs + cnorm(t)), 'compression block')
+    for fn, want in (('load_in_cache', (CH or 0) + TAG), ('load_in_cache_unauthenticated', CH)):
+        body = one_body(prog, rep, 'R06.10', 'mla', exact='layers::encrypt::EncryptionLayerInternal::' + fn)
+        if body is None:
+            continue
+        rte = [b for b in body.calls() if b.term.cmethod == 'read_to_end' and b.term.ctrait == 'std::io::Read']
+        lim = None
+        if len(rte) == 1:
+            ro = origins(body, [rte[0].term.args[0].place[0]])
+            tk = [body.blocks[c].term for c in ro.calls if body.blocks[c].term.cmethod == 'take' and body.blocks[c].term.ctrait == 'std::io::Read']
+            if len(tk) == 1:
+                lim = const_eval(body, tk[0].args[1])
+        alt = (CH or 0) + TAG if fn == 'load_in_cache_unauthenticated' else None
+        ok = lim is not None and (lim == want or (alt is not None and lim == alt))
+        rep.ob('R06.10', ok, 'R06.10|%s|chunk-read-length' % body.nkey, 'chunk read through take(%s)' % lim if ok else
+               'the chunk loader reads take(%s) instead of %s: chunks are no longer cut every CHUNK_SIZE(+TAG_LENGTH) bytes' % (lim, want), body.loc(rte[0].idx) if rte else body.loc())
 
 
 def r06_9(prog, rep):
